@@ -11,6 +11,10 @@ for r in "$@"; do
     out=$(MW_REPO=$WT MW_TAG=$TAG ./check $c quick 2>&1 | grep -E "^(OK|VIOLATION|INCONCLUSIVE|KNOWN)" | head -1)
     case "$out" in OK*) ;; *) res="$res | $c: ${out:0:300}" ;; esac
   done
+  if grep -q "packages/initia-proto" /verif/refactors/$r/patch.diff; then
+    out=$(MW_REPO=$WT MW_TAG=$TAG ./check C20 quick 2>&1 | grep -E "^(OK|VIOLATION|INCONCLUSIVE|KNOWN)" | head -1)
+    case "$out" in OK*) ;; *) res="$res | C20: ${out:0:300}" ;; esac
+  fi
   if [ -z "$res" ]; then echo "$r SILENT (19 checks)"; else echo "$r ALARM $res"; fi
   python3 - "$r" "$res" <<'PY'
 import json,sys
